@@ -19,6 +19,9 @@ MUT = [
  ("C19", "qkeras/qtools/qtools_util.py", "    operation_count = (\n        time_o * channels_o * kernel_length * channels_i)", "    operation_count = (\n        time_o * channels_o * kernel_length)", "Conv1D"),
  ("C10", "qkeras/quantizers.py", '    flags = [str(self.bits), integer_bits, str(int(self.symmetric))]\n    if not self.keep_negative:\n      flags.append("keep_negative=False")\n    if self.alpha:', '    flags = [str(self.bits), str(int(self.symmetric)), integer_bits]\n    if not self.keep_negative:\n      flags.append("keep_negative=False")\n    if self.alpha:', "quantized_bits"),
  ("C10", "qkeras/safe_eval.py", "    if (len(items[i]) == 1) and (len(items[i-1]) == 2):", "    if (len(items[i]) == 1) and (len(items[i-1]) == 2) and i > 1:", "GetParams"),
+ ("C11", "qkeras/qlayers.py", "      output = tf.keras.backend.bias_add(output, quantized_bias,\n                                         data_format=\"channels_last\")", "      output = tf.keras.backend.bias_add(output, self.bias,\n                                         data_format=\"channels_last\")", "QDense"),
+ ("C11", "qkeras/qconvolutional.py", "        dilation_rate=self.dilation_rate[0])\n\n    if self.use_bias:", "        dilation_rate=1)\n\n    if self.use_bias:", "QConv1D"),
+ ("C11", "qkeras/qconvolutional.py", "      quantized_pointwise_kernel = self.pointwise_quantizer_internal(\n          self.pointwise_kernel)\n    else:\n      quantized_pointwise_kernel = self.pointwise_kernel\n\n    outputs = tf.keras.backend.separable_conv2d(\n        inputs,\n        quantized_depthwise_kernel,\n        quantized_pointwise_kernel,\n        strides=self.strides,", "      quantized_pointwise_kernel = self.depthwise_quantizer_internal(\n          self.pointwise_kernel)\n    else:\n      quantized_pointwise_kernel = self.pointwise_kernel\n\n    outputs = tf.keras.backend.separable_conv2d(\n        inputs,\n        quantized_depthwise_kernel,\n        quantized_pointwise_kernel,\n        strides=self.strides,", "QSeparableConv2D"),
  ("C16", "qkeras/qtools/quantized_operators/multiplier_impl.py", "    self.output.int_bits = self.input.int_bits + self.weights.int_bits", "    self.output.int_bits = max(self.input.int_bits, self.weights.int_bits)", "qbits_x_qbits"),
  ("C17", "qkeras/qtools/quantized_operators/accumulator_impl.py", "    self.log_add_ops = int(np.ceil(np.log2(add_ops)))", "    self.log_add_ops = int(np.floor(np.log2(add_ops)))", "qbits_rank2"),
  ("C17", "qkeras/qtools/quantized_operators/adder_impl.py", "    fractional_bits = max(fractional_bits1, fractional_bits2)", "    fractional_bits = min(fractional_bits1, fractional_bits2)", "qbits_plus_qbits"),
